@@ -48,7 +48,7 @@ FILES = {
     "F24s": dict(k=2, n=4, seg=128, size=61),
     "F35s": dict(k=3, n=5, seg=128, size=61),
 }
-KINDS = [kd for kd in lib_imm.DAMAGE_KINDS if kd != "missing"]
+KINDS = [kd for kd in lib_imm.DAMAGE_KINDS if kd != "missing"] + ["foreign-blocks"]
 MUST_BAD = ("data", "crypttext_hash_tree", "block_hashes", "share_hashes", "ueb_length", "ueb")
 
 
@@ -121,6 +121,22 @@ def execute(case, seed):
             elif st == "missing":
                 cls[sh] = "missing"
                 blobs[(sh, sh)] = None
+            elif st == "foreign-blocks":
+                # every block AND the whole block hash tree replaced by those of the same share number of
+                # ANOTHER file of the same size and encoding: self-consistent, but not this capability's
+                other = lib_imm.prepare(k, n, F["seg"], F["size"], seed + 1000)
+                o, fo = prep["shares"][sh], lib_imm.share_fields(prep["shares"][sh])
+                x, fx = other["shares"][sh], lib_imm.share_fields(other["shares"][sh])
+                if (fo["data"], fo["block_hashes"]) != (fx["data"], fx["block_hashes"]):
+                    raise grid.HarnessError("layouts differ")
+                blob = bytearray(o)
+                for nm in ("data", "block_hashes"):
+                    blob[fo[nm][0]:fo[nm][1]] = x[fx[nm][0]:fx[nm][1]]
+                blobs[(sh, sh)] = bytes(blob)
+                cls[sh] = "corrupt"
+                if blobs[(sh, sh)] == prep["shares"][sh]:
+                    raise grid.HarnessError("foreign-blocks left share %d unchanged" % sh)
+                continue
             else:
                 blobs[(sh, sh)] = lib_imm.damage(prep["shares"][sh], st)
                 cls[sh] = "corrupt" if not isinstance(st, (list, tuple)) else ("corrupt" if flip_class(prep, sh, st[1]) == "must-bad" else "maybe")
